@@ -17,12 +17,17 @@ from pjrpc.server.validators import pydantic as vpd
 logging.disable(logging.CRITICAL)
 DEFAULT = 'DEFAULT-SENTINEL'
 VALUES = {'i5': 5, 'i0': 0, 'im1': -1, 's_abc': 'abc', 's_5': '5', 's_x': 'x', 'true': True, 'null': None,
-          'a_12': [1, 2], 'a_a': ['a'], 'o_k1': {'k': 1}, 'f1_5': 1.5}
+          'a_12': [1, 2], 'a_a': ['a'], 'o_k1': {'k': 1}, 'f1_5': 1.5, 'o_x1': {'x': 1}, 'a_ox1': [{'x': 1}]}
 FRAG = {'int': {'type': 'integer'}, 'intmin0': {'type': 'integer', 'minimum': 0}, 'intmax0': {'type': 'integer', 'maximum': 0},
         'strenum': {'type': 'string', 'enum': ['abc', '5']}, 'bool': {'type': 'boolean'},
         'intlist': {'type': 'array', 'items': {'type': 'integer'}}}
-ANN = {'int': int, 'str': str, 'bool': bool, 'optint': Optional[int], 'intlist': List[int]}
-ANN_SRC = {'int': 'int', 'str': 'str', 'bool': 'bool', 'optint': 'Optional[int]', 'intlist': 'List[int]'}
+class XModel(pydantic.BaseModel):
+    x: int
+
+
+ANN = {'int': int, 'str': str, 'bool': bool, 'optint': Optional[int], 'intlist': List[int], 'model': XModel, 'modellist': List[XModel]}
+ANN_SRC = {'int': 'int', 'str': 'str', 'bool': 'bool', 'optint': 'Optional[int]', 'intlist': 'List[int]', 'model': 'XModel',
+           'modellist': 'List[XModel]'}
 
 
 class Ctx:
@@ -46,10 +51,16 @@ REV = {key(v): k for k, v in VALUES.items()}
 def a_val(v):
     if v is CTX:
         return 'CTX'
+    if isinstance(v, pydantic.BaseModel) or (isinstance(v, list) and any(isinstance(x, pydantic.BaseModel) for x in v)):
+        return 't_model' if isinstance(v, XModel) else ('t_modellist' if isinstance(v, list) and all(isinstance(x, XModel) for x in v) else 'other:model')
     if isinstance(v, str) and v == DEFAULT:
         return 'DEFAULT'
     if key(v) in REV:
         return REV[key(v)]
+    if isinstance(v, XModel):
+        return 't_model'
+    if isinstance(v, list) and v and all(isinstance(x, XModel) for x in v):
+        return 't_modellist'
     if isinstance(v, bool):
         return 't_bool'
     if isinstance(v, int):
@@ -129,12 +140,12 @@ def run(scn):
              'extra': a_val(loc['ctx']) if 'ctx' in loc else (a_val(loc['dep']) if 'dep' in loc else 'na')}
         ev.append(e)
         return 'RET'
-    ns = {'DEFAULT': DEFAULT, '_log': log, 'Optional': Optional, 'List': List}
+    ns = {'DEFAULT': DEFAULT, '_log': log, 'Optional': Optional, 'List': List, 'XModel': XModel}
     exec('def m(%s):\n    return _log(dict(locals()))\n' % ', '.join(parts), ns)
     m = ns['m']
     if is_schema:
         schema = {'type': 'object', 'properties': {n: FRAG[p['type']] for n, p in zip(names, s['params'])},
-                  'required': [n for n, p in zip(names, s['params']) if not p['dflt']], 'additionalProperties': False}
+                  'required': [n for n, p in zip(names, s['params']) if not p['dflt'] or s.get('sreq')], 'additionalProperties': False}
         m = val.validate(m) if s['vsrc'] == 'shared_default' else val.validate(m, schema=schema)
     else:
         m = val.validate(m)
